@@ -111,6 +111,7 @@ type srcOpts struct {
 	By          bool   // programs are bystanders: plain functions next to a generator (C13)
 	CompileOnly bool   // stop after compiling and building the generated packages (C11)
 	Box         bool   // generators of element type *rt.Box (fresh objects), adapted to the int protocol by rt.BoxIt
+	GG          bool   // generators of generators (element type Iter[int]); All wraps each in the flattening consumer rt.GGIt
 	ElemExtras  bool   // all_co.go also declares generators of other element types (slice, map, func, any, error, pointer, Iter[int], type parameter)
 	BoxVal      bool   // with Box: element type rt.BoxV (struct value, composite literal operands), adapter rt.BoxVIt
 	PerPkg      int    // programs per package (crash isolation granularity)
@@ -361,6 +362,11 @@ func runSrcFamilyN(c *vf.Check, cases []srcCase, callsOf func(i int) int, o srcO
 				for i := 0; i < np; i++ {
 					fmt.Fprintf(&b, "\tB%d,\n", i)
 				}
+			} else if o.GG {
+				b.WriteString("var All = []func(*rt.Rec, int, int) rt.IntIt{\n")
+				for i := 0; i < np; i++ {
+					fmt.Fprintf(&b, "\tfunc(r *rt.Rec, a, b int) rt.IntIt { return &rt.GGIt[*rt.NIter]{In: G%d(r, a, b)} },\n", i)
+				}
 			} else if o.Box {
 				b.WriteString("var All = []func(*rt.Rec, int, int) *rt.NIterT[" + boxElem(o) + "]{\n")
 				for i := 0; i < np; i++ {
@@ -442,6 +448,9 @@ func runSrcFamilyN(c *vf.Check, cases []srcCase, callsOf func(i int) int, o srcO
 	if o.By {
 		stub = "import \"scratch/rt\"\n\nvar All = map[int]func(*rt.Rec, int, int) int{}"
 	}
+	if o.GG {
+		stub = "import \"scratch/rt\"\n\nvar All = map[int]func(*rt.Rec, int, int) rt.IntIt{}"
+	}
 	u := unitSpec{N: np, PerPkg: o.PerPkg, Stage: o.Stage, Hdr: hdr, Files: extraFiles, Plain: plain, Stub: stub,
 		File: func(i int) string {
 			if o.By {
@@ -460,6 +469,16 @@ func runSrcFamilyN(c *vf.Check, cases []srcCase, callsOf func(i int) int, o srcO
 				all.WriteString("}\n\nfunc GenInAll(r *rt.Rec) " + api + "Iter[int] { " + api + "Yield(1); return nil }\n")
 				all.WriteString("\nvar GenLit = func(r *rt.Rec) " + api + "Iter[int] {\n\t" + api + "Yield(2)\n\treturn nil\n}\n")
 				all.WriteString(optDecls + strings.ReplaceAll(byExtras, "PKG", pkg))
+				return all.String()
+			}
+			if o.GG {
+				// a closure in a processed file (not a generator): the type argument Iter[int] is rewritten too
+				all.WriteString("var All = map[int]func(*rt.Rec, int, int) rt.IntIt{\n")
+				for _, i := range live {
+					fmt.Fprintf(&all, "\t%d: func(r *rt.Rec, a, b int) rt.IntIt { return &rt.GGIt[%sIter[int]]{In: G%d(r, a, b)} },\n", i, api, i)
+				}
+				all.WriteString("}\n")
+				all.WriteString(strings.ReplaceAll(strings.ReplaceAll(strings.ReplaceAll(delegCo, "Iter[int]", api+"Iter[int]"), "Yield(", api+"Yield("), "YieldFrom(", api+"YieldFrom("))
 				return all.String()
 			}
 			elem := "int"
